@@ -123,7 +123,16 @@ def run_case(case):
             obs1 = observe.full_state(sysm, identity=False)
             d = observe.state_diff(obs0, obs1)
             # 2. re-assign the previous value(s) (equal new objects), as a user would to recover
-            chs = e["changes"] if e["op"] == "group" else [e]
+            if e["op"] == "group":
+                chs = e["changes"]
+            elif e["op"] == "fresh_storage":
+                chs = [{"obj": e["obj"], "attr": "storage"}]
+            elif e["op"] == "delete_pattern":
+                chs = [{"obj": h.spec["system"], "attr": "usage_patterns"}]
+            elif e["op"] == "simulate":
+                chs = []
+            else:
+                chs = [e]
             try:
                 for c in chs:
                     edits.apply_live({"op": "set", "obj": c["obj"], "attr": c["attr"], "value": spec_before["objects"][c["obj"]]["params"].get(c["attr"], ["none"])}, h.objs)
